@@ -227,6 +227,30 @@ func init() {
 		}
 		return Parsed{OK: true, HasRem: true, Rem: rem, Ser: r.KeysAndCert.Bytes, Val: r}
 	})
+	// assemble-from-parts constructors fed with the parts of a parsed identity (what an application does when it
+	// re-creates an identity it received): certificate, keys and padding exactly as the reader exposed them
+	add("router_identity.NewRouterIdentity(parts of ReadKeysAndCert)", "RouterIdentity", func(in []byte) Parsed {
+		k, rem, err := keys_and_cert.ReadKeysAndCert(in)
+		if err != nil || k == nil || k.KeyCertificate == nil {
+			return Parsed{OK: false, Err: errStr(err), HasRem: true, Rem: rem}
+		}
+		r, err := router_identity.NewRouterIdentity(k.ReceivingPublic, k.SigningPublic, k.Certificate(), k.Padding)
+		if err != nil || r == nil || r.KeysAndCert == nil {
+			return Parsed{OK: false, Err: errStr(err), HasRem: true, Rem: rem}
+		}
+		return Parsed{OK: true, HasRem: true, Rem: rem, Ser: r.KeysAndCert.Bytes, Val: r}
+	})
+	add("keys_and_cert.NewKeysAndCert(parts of ReadKeysAndCert)", "KeysAndCert", func(in []byte) Parsed {
+		k, rem, err := keys_and_cert.ReadKeysAndCert(in)
+		if err != nil || k == nil || k.KeyCertificate == nil {
+			return Parsed{OK: false, Err: errStr(err), HasRem: true, Rem: rem}
+		}
+		k2, err := keys_and_cert.NewKeysAndCert(k.KeyCertificate, k.ReceivingPublic, k.Padding, k.SigningPublic)
+		if err != nil || k2 == nil {
+			return Parsed{OK: false, Err: errStr(err), HasRem: true, Rem: rem}
+		}
+		return Parsed{OK: true, HasRem: true, Rem: rem, Ser: k2.Bytes, Val: k2}
+	})
 	add("router_identity.ReadRouterIdentity", "RouterIdentity", func(in []byte) Parsed {
 		r, rem, err := router_identity.ReadRouterIdentity(in)
 		p := Parsed{OK: err == nil && r != nil, Err: errStr(err), HasRem: true, Rem: rem, Val: r}
